@@ -11,6 +11,11 @@
 
 namespace no = nitro::options;
 
+// A broken tree can make thousands of cases die in ASan; symbolizing every report costs ~0.25 s each and turns a
+// failing quick run into ten minutes.  The report's first line (error kind) is all the runner needs; run the
+// driver by hand with ASAN_OPTIONS=symbolize=1 to get the stacks of a replayed case.
+extern "C" const char* __asan_default_options() { return "symbolize=0"; }
+
 namespace
 {
 struct objinfo
